@@ -166,3 +166,13 @@ package metadata
 //@   site call blkBloom.ReadFrom #1:
 //@     assert [the-bloom-library-only-sees-an-entry-whose-bit-count-fits] len(cmbuf) >= 25 && be64(cmbuf[17:25]) <= uint64(len(cmbuf) - 25) * 8
 //@ end
+
+// C14 (a deleted segment is no longer handed to a search): removal of a rotated
+// metrics segment from the in-memory metadata — map AND time-sorted slice.  The
+// removal splices the slice in place (overlapping append): decided by the
+// bounded stand-in only.
+//@ func (*allMetricsSegmentMetadata).deleteMetricsSegmentKey
+//@   props C14
+//@   note no proof obligations: this contract only attaches the bounded stand-in
+//@   bounded metadata/deletemetricssegment_test.go Test_Bounded_DeleteMetricsSegmentKey 1 to 5 registered metrics segments, every non-empty subset deleted in increasing and in decreasing position (the head of the sorted slice included; 258 deletions checked one by one): the sorted slice holds exactly the survivors, once each, and so does the map
+//@ end
